@@ -1,14 +1,14 @@
 #!/bin/bash
-# confirm a round-2 seeded change: usage confirm_seed2.sh <id>; worktree /tmp/wt3/<id> (change applied), clean /tmp/wt3/base, seed dir /tmp/seed3/<id>
-id=$1; sd=/tmp/seed3/$id; wt=/tmp/wt3/$id; log=$sd/confirm.log
+# confirm a seeded change of round N: usage confirm_seedN.sh <id> [N]; worktree /tmp/wtN/<id> (change applied), clean /tmp/wtN/base, seed dir /tmp/seedN/<id>
+id=$1; N=${2:-3}; sd=/tmp/seed$N/$id; wt=/tmp/wt$N/$id; log=$sd/confirm.log
 {
 echo "== confirm $id $(date -u +%FT%TZ)"
 cd $wt || exit 1
 git diff > $sd/patch.current.diff
 if ! cmp -s $sd/patch.current.diff $sd/patch.diff; then echo "NOTE: worktree diff differs from patch.diff (using worktree state)"; cp $sd/patch.current.diff $sd/patch.diff; fi
 make -j4 >/dev/null 2>&1; echo "build_rc=$?"
-( git -C /tmp/wt3/base diff --quiet && echo base_clean=yes )
-bash $sd/demo.sh /tmp/wt3/base > $sd/demo.clean.out 2>&1; echo "demo_clean_rc=$?"
+( git -C /tmp/wt$N/base diff --quiet && echo base_clean=yes )
+bash $sd/demo.sh /tmp/wt$N/base > $sd/demo.clean.out 2>&1; echo "demo_clean_rc=$?"
 bash $sd/demo.sh $wt > $sd/demo.changed.out 2>&1; echo "demo_changed_rc=$?"
 make check > $sd/makecheck.confirm.out 2>&1; echo "make_check_rc=$?"
 tail -2 $sd/makecheck.confirm.out
